@@ -61,14 +61,21 @@ func NewNtfnsHandler(w *WalletManager) (*NtfnsHandler, error) {
 		quit:       make(chan struct{}),
 	}
 	var syncedTo *txmgr.BlockMeta
+	var wss []*txmgr.WalletStatus
 	err := mwdb.View(w.db, func(tx mwdb.ReadTransaction) (err error) {
 		syncedTo, err = w.syncStore.SyncedTo(tx)
+		if err != nil {
+			return err
+		}
+		wss, err = w.syncStore.GetAllWalletStatus(tx)
 		return err
 	})
 	if err != nil {
 		return nil, err
 	}
 	h.bestBlock = *syncedTo
+	// created here, before any goroutine exists: API calls read it while the worker runs
+	h.taskChan = NewWalletTaskChan(len(wss))
 	return h, nil
 }
 
@@ -758,7 +765,6 @@ func worker(h *NtfnsHandler) {
 		if err != nil {
 			return err
 		}
-		h.taskChan = NewWalletTaskChan(len(wss))
 		for _, ws := range wss {
 			logging.CPrint(logging.DEBUG, "wallet status",
 				logging.LogFormat{
